@@ -522,7 +522,13 @@ func streamOperatorChains(o *Out, tier string) {
 	o.Emit(reqLine([]string{"reset"}), s.Exec([]string{"reset"}), "")
 	o.Emit(reqLine([]string{"parse", hexOrDash([]byte("0"))}), s.Exec([]string{"parse", hexOrDash([]byte("0"))}), "")
 	root := &Ref{kind: ajson.Numeric}
+	count := 0
 	run := func(ops []string) {
+		count++
+		if count%40 == 0 { // keep the model's heap small: evaluation results are never freed there
+			o.Emit(reqLine([]string{"reset"}), s.Exec([]string{"reset"}), "")
+			o.Emit(reqLine([]string{"parse", hexOrDash([]byte("0"))}), s.Exec([]string{"parse", hexOrDash([]byte("0"))}), "")
+		}
 		text := chainOperands[0]
 		for i, op := range ops {
 			text += " " + op + " " + chainOperands[i+1]
